@@ -2,7 +2,7 @@
    Only statements here; every proof is `exact <lemma>` into Proofs/. *)
 From Verif Require Import Base.Prelude Base.StrUtil Base.Index Base.NdArr Model.MapSpec Model.MapRun Model.MapDenote
   Model.SymBody Model.RunInfoCodec Model.FSStore Corr.Run_C04 Corr.Valid_C04
-  Proofs.RunInfoFacts Proofs.FSStoreFacts Proofs.ReloadFacts Proofs.ConsistentFacts Proofs.FinishFacts Proofs.C04Witness.
+  Proofs.RunInfoFacts Proofs.FSStoreFacts Proofs.ReloadFacts Proofs.ConsistentFacts Proofs.FinishFacts Proofs.C04Corr Proofs.C04Witness.
 
 (* ---------------------------------------------------------------------------------------------------------- *)
 (* 1. RunInfo.load (RunInfo.dump ri) = ri : shapes, masks (keyed by a name or a tuple of names), internal shapes
@@ -132,6 +132,16 @@ Example C04_example_finishes :
             /\ forallb (kind_persists mixed_case) (c_funcs mixed_case) = true
             /\ length (f_outs f) = 4.
 Proof. exact mixed_case_finishes. Qed.
+
+(* ---------------------------------------------------------------------------------------------------------- *)
+(* 3'. The canonical form: for EVERY valid request (with a backend for every mapped output) the model's whole
+       observation - run, two reloads in the same or a fresh interpreter, RunInfo.load, inputs, defaults, xarray
+       structure, folder unchanged - satisfies the executable statement spec_ok, i.e. the very predicate that judges the
+       real implementation's observations in the correspondence check. *)
+Theorem C04_model_meets_spec : forall c,
+  valid_request c = true -> storage_complete c = true -> spec_ok c (run c) = true.
+Proof. exact model_meets_spec. Qed.
+Print Assumptions C04_model_meets_spec.
 
 (* ---------------------------------------------------------------------------------------------------------- *)
 (* 4. The persist protocol of shared_memory_dict BEFORE the repair (the DictProxy itself was pickled: FS content
